@@ -271,8 +271,8 @@ func gridOps(proto string, thorough bool) []wire.Op {
 		}
 	}
 	// long multi-key gets: text lines and binary batches that cross the 4096-byte bufio buffer,
-	// 8192 and 65536
-	for _, shape := range [][2]int{{17, 250}, {20, 250}, {33, 250}, {100, 40}, {103, 39}, {300, 250}, {1000, 7}} {
+	// 8192 and 65536 bytes, and key counts around 4096 and 65536
+	for _, shape := range [][2]int{{17, 250}, {20, 250}, {33, 250}, {100, 40}, {103, 39}, {300, 250}, {1000, 7}, {4095, 5}, {4096, 5}, {4097, 5}, {10000, 5}, {65535, 5}, {65536, 5}, {70000, 5}} {
 		n, kl := shape[0], shape[1]
 		var keys []string
 		var quiet []bool
